@@ -17,7 +17,7 @@ import itertools
 
 DEFAULT_FEAT = dict(
     subtypes=True, constants=True, neg=True, equality=True, numeric=True, when=True, forall_eff=True,
-    or_pre=False, forall_pre=False,          # D2 / D3 finding profiles
+    or_pre=False, forall_pre=False, bare_pre=False,   # nested / quantified / unwrapped preconditions
     cond_numeric=True,                       # numeric comparisons inside when/forall conditions
     child_first_types=False,                 # D10 finding profile
     repeated_call_objects=True, long_names=False,
@@ -90,6 +90,7 @@ def gen_domain(t, feat=None, multi_agent=False):
         acts[anames[ai]] = {
             "params": params,
             "pre": gen_conj(t, D, params, f, top=True),
+            "bare_pre": bool(f.get("bare_pre")) and t.draw(2) == 0,
             "eff": gen_effects(t, D, params, f),
         }
     D["actions"] = acts
@@ -173,18 +174,41 @@ def gen_conj(t, D, scope, f, top=False, depth=2):
     # printer; numeric comparisons inside them run into the simplifier's recorded defects already at parse time, so
     # they are not generated there (that is C13's subject)
     fn = dict(f, numeric=False)
+    def lits(sc, n):
+        return [x for x in (gen_lit(t, D, sc, fn) for _ in range(n)) if x]
+
+    def disj(sc):
+        sub = []
+        for _ in range(1 + t.draw(3)):
+            if t.draw(4) == 0:
+                inner = lits(sc, 1 + t.draw(2))  # (or ... (and a b) ...)
+                if inner:
+                    sub.append(("and", inner))
+            else:
+                sub += lits(sc, 1)
+        return ("or", sub) if sub else None
+
     for _ in range(t.draw(4)):
         k = t.draw(10)
-        if k == 0 and f["or_pre"] and depth > 0:
-            sub = [x for x in (gen_lit(t, D, scope, fn) for _ in range(1 + t.draw(3))) if x]
-            if sub:
-                items.append(("or", sub))
-        elif k == 1 and f["forall_pre"] and top:
+        if k < 2 and f["or_pre"] and depth > 0:
+            d = disj(scope)
+            if d:
+                items.append(d)
+        elif k in (2, 3) and f["forall_pre"] and top:
             ty = t.pick(list(D["types"]))
             v = "?q"
-            sub = [x for x in (gen_lit(t, D, scope + [(v, ty)], fn) for _ in range(1 + t.draw(2))) if x]
-            if sub:
-                items.append(("forall", v, ty, ("and", sub)))
+            sc = scope + [(v, ty)]
+            if f["or_pre"] and t.draw(3) == 0:
+                body = disj(sc)  # (forall (?q - ty) (or ...))
+            else:
+                sub = lits(sc, 1 + t.draw(2))
+                if f["or_pre"] and sub and t.draw(4) == 0:
+                    d = disj(sc)
+                    if d:
+                        sub.append(d)  # (forall (?q - ty) (and ... (or ...)))
+                body = ("and", sub) if sub else None
+            if body:
+                items.append(("forall", v, ty, body))
         else:
             x = gen_lit(t, D, scope, f)
             if x:
@@ -332,6 +356,14 @@ def r_f(f):
     raise ValueError(f)
 
 
+def r_pre(a):
+    """the precondition of an action; a one-condition conjunction may be written without its 'and' wrapper"""
+    pre = a["pre"]
+    if a.get("bare_pre") and pre[0] == "and" and len(pre[1]) == 1:
+        return r_f(pre[1][0])
+    return r_f(pre)
+
+
 def r_e(e):
     k = e[0]
     if k == "add":
@@ -372,7 +404,7 @@ def render_domain(D, child_first=False, requirements=(":typing",), decl_var="?v"
             "(" + p + (" " if sig else "") + r_sig([(f"{decl_var}{i}", ty) for i, ty in enumerate(sig)]) + ")"
             for p, sig in D["functions"].items()) + ")\n"
     for n, a in D["actions"].items():
-        s += (f"(:action {n}\n :parameters ({r_sig(a['params'])})\n :precondition {r_f(a['pre'])}\n"
+        s += (f"(:action {n}\n :parameters ({r_sig(a['params'])})\n :precondition {r_pre(a)}\n"
               f" :effect (and {' '.join(r_e(e) for e in a['eff'])}))\n")
     return s + ")\n"
 
